@@ -438,11 +438,11 @@ def peephole_tie(ctx):
     except Exception:  # noqa
         corpus = []
     if ctx.tier != "thorough":
-        # quick: at most ~1500 items of compiler-emitted assembly (the whole-pipeline model is quadratic)
+        # quick: at most ~1100 items of compiler-emitted assembly (the whole-pipeline model is quadratic)
         corpus.sort(key=lambda p: len(p[1]))
         kept, tot = [], 0
         for p_ in corpus:
-            if tot + len(p_[1]) <= 1500 or not kept:
+            if tot + len(p_[1]) <= 1100 or not kept:
                 kept.append(p_)
                 tot += len(p_[1])
         corpus = kept
@@ -711,7 +711,7 @@ def real_lower_tie(ctx):
     rnd = ctx.rng("reallower")
     contracts = OWN + list(CORPUS)
     if ctx.tier != "thorough":
-        contracts = rnd.sample(OWN, 2) + rnd.sample(list(CORPUS), 2)
+        contracts = rnd.sample(OWN, 1) + rnd.sample(list(CORPUS), 2)
 
     def clean(x):      # label names are source text: keep them printable inside a Coq string, same on both sides
         return x.replace('"', "'").replace("\n", " ").replace("\\", "/")
